@@ -46,4 +46,12 @@ Emit ==
     LET hist == HistOf(lx, L) IN
     /\ IsHistory(hist)
     /\ PrintT(ToJson([lx |-> lx, ledger |-> L, keys |-> Keys, hist |-> hist, rows |-> RowsAfter(hist, L, Keys)]))
+(* the alphabet of repeated open / close / commodity directives (Gen_LedgerDup.cfg): the ledgers in which an account is
+   opened (closed) or a currency declared by more than one directive -- the others are ledgers of the other runs *)
+HasTie(M) ==
+    \E i, j \in 1..Len(M) :
+        /\ i < j /\ M[i].k = M[j].k
+        /\ \/ (M[i].k \in {"open", "close"} /\ M[i].account = M[j].account)
+           \/ (M[i].k = "commodity" /\ M[i].currency = M[j].currency)
+EmitTies == IF HasTie(L) THEN Emit ELSE TRUE
 =============================================================================
